@@ -114,6 +114,20 @@ static char *decc(const char *t, size_t *len)
   return out;
 }
 
+/* The delimiter and comment arguments of the read functions are handed over in two buffers that live as long as the
+   thread and are re-used from call to call (an application that keeps its settings in a struct does the same): the
+   library sees the same addresses with different contents. */
+static TL char arg_delim[64], arg_comment[64];
+static const char *keep_arg(char *buf, size_t size, char *s)
+{
+  if (s == NULL || strlen(s) >= size) return s;
+  memset(buf, 0, size);
+  strcpy(buf, s);
+  return buf;
+}
+#define DELIM(d) keep_arg(arg_delim, sizeof arg_delim, d)
+#define COMMENT(c) keep_arg(arg_comment, sizeof arg_comment, c)
+
 /* ---------- callback ---------- */
 static TL int cb_mode;            /* 0 none, 1 accept all, 2 reject n-th, 3 reject suffix, 4 accept all after reading another
                                      file through the library, 5 accept all, the n-th call removes a file first */
@@ -129,8 +143,17 @@ static bool the_cb(const char *filename, const void *data)
   if (cb_mode == 4) { /* a policy callback which loads its own configuration with the library while it is being asked */
     int keep = log_open; log_open = 0;
     econf_file *t = NULL;
-    if (econf_readFile(&t, cb_suffix, "=", "#") == ECONF_SUCCESS) { char *v = NULL; econf_getStringValue(t, NULL, "allow", &v); free(v); }
+    if (econf_readFile(&t, cb_suffix, ":", ";") == ECONF_SUCCESS) { char *v = NULL; econf_getStringValue(t, NULL, "allow", &v); free(v); }
     econf_freeFile(t);
+    /* ... and a layered one: <dir of the policy file>/usr + /etc, name "allow", suffix "list" */
+    char *dir = strdup(cb_suffix); char *sl = strrchr(dir, '/'); if (sl) *sl = 0;
+    char *u = NULL, *e2 = NULL;
+    if (asprintf(&u, "%s/usr", dir) > 0 && asprintf(&e2, "%s/etc", dir) > 0) {
+      t = NULL;
+      econf_readDirs(&t, u, e2, "allow", "list", " ", "!");
+      econf_freeFile(t);
+    }
+    free(u); free(e2); free(dir);
     log_open = keep;
   }
   if (cb_mode == 5 && k == cb_n) unlink(cb_suffix);
@@ -463,8 +486,8 @@ static void run_cmd(char *line)
   else if (!strcmp(c, "RF")) { /* RF slot path delim comment [cb] */
     int s = sl(tok[1]); char *p = dec(tok[2], NULL), *d = dec(tok[3], NULL), *cm = dec(tok[4], NULL);
     econf_err e;
-    if (cb_setup(tok[5])) e = econf_readFileWithCallback(&slot[s], p, d, cm, the_cb, &cb_token);
-    else e = econf_readFile(&slot[s], p, d, cm);
+    if (cb_setup(tok[5])) e = econf_readFileWithCallback(&slot[s], p, DELIM(d), COMMENT(cm), the_cb, &cb_token);
+    else e = econf_readFile(&slot[s], p, DELIM(d), COMMENT(cm));
     printf("rf E%d %s\n", e, ptrstate(slot[s]));
     free(p); free(d); free(cm);
   }
@@ -473,8 +496,8 @@ static void run_cmd(char *line)
     char *pr = dec(tok[2], NULL), *us = dec(tok[3], NULL), *nm = dec(tok[4], NULL), *sf = dec(tok[5], NULL),
          *d = dec(tok[6], NULL), *cm = dec(tok[7], NULL);
     econf_err e;
-    if (cb_setup(tok[8])) e = econf_readConfigWithCallback(&slot[s], pr, us, nm, sf, d, cm, the_cb, &cb_token);
-    else e = econf_readConfig(&slot[s], pr, us, nm, sf, d, cm);
+    if (cb_setup(tok[8])) e = econf_readConfigWithCallback(&slot[s], pr, us, nm, sf, DELIM(d), COMMENT(cm), the_cb, &cb_token);
+    else e = econf_readConfig(&slot[s], pr, us, nm, sf, DELIM(d), COMMENT(cm));
     printf("rc E%d %s\n", e, ptrstate(slot[s]));
     free(pr); free(us); free(nm); free(sf); free(d); free(cm);
   }
@@ -483,8 +506,8 @@ static void run_cmd(char *line)
     char *u = dec(tok[2], NULL), *et = dec(tok[3], NULL), *nm = dec(tok[4], NULL), *sf = dec(tok[5], NULL),
          *d = dec(tok[6], NULL), *cm = dec(tok[7], NULL);
     econf_err e;
-    if (cb_setup(tok[8])) e = econf_readDirsWithCallback(&slot[s], u, et, nm, sf, d, cm, the_cb, &cb_token);
-    else e = econf_readDirs(&slot[s], u, et, nm, sf, d, cm);
+    if (cb_setup(tok[8])) e = econf_readDirsWithCallback(&slot[s], u, et, nm, sf, DELIM(d), COMMENT(cm), the_cb, &cb_token);
+    else e = econf_readDirs(&slot[s], u, et, nm, sf, DELIM(d), COMMENT(cm));
     printf("rd E%d %s\n", e, ptrstate(slot[s]));
     free(u); free(et); free(nm); free(sf); free(d); free(cm);
   }
@@ -495,8 +518,8 @@ static void run_cmd(char *line)
     econf_file **hist = (econf_file **)&cb_token; /* sentinel: "untouched" */
     size_t size = 12345;
     econf_err e;
-    if (cb_setup(tok[8])) e = econf_readDirsHistoryWithCallback(&hist, &size, u, et, nm, sf, d, cm, the_cb, &cb_token);
-    else e = econf_readDirsHistory(&hist, &size, u, et, nm, sf, d, cm);
+    if (cb_setup(tok[8])) e = econf_readDirsHistoryWithCallback(&hist, &size, u, et, nm, sf, DELIM(d), COMMENT(cm), the_cb, &cb_token);
+    else e = econf_readDirsHistory(&hist, &size, u, et, nm, sf, DELIM(d), COMMENT(cm));
     const char *st = hist == (econf_file **)&cb_token ? "untouched" : hist ? "obj" : "null";
     if (e == 0) {
       printf("rh E%d %s %zu\n", e, st, size);
